@@ -9,6 +9,11 @@ Re-reads /repo/blocc on every run and lists, with file:line,
       function-local statics),
   (c) every namespace-scope variable definition in a .cpp/.c file whose type does not start with
       `const` (definitions of (b)'s class statics are merged with their declaration).
+A cell of (b)/(c) declared `thread_local` (or `__thread`) is PER-THREAD state: every thread has its own
+instance, so it is not a cell that contexts running on different threads share. It is listed apart, as
+`threadLocalCells` (how = "thread_local"), never in `sharedCells`: the model classifies the two lists
+separately (`cellKind` / `threadCellKind` of Model/World.lean). Removing the `thread_local` from such a
+declaration moves the cell back into `sharedCells`, where it is unclassified — the obligation breaks.
 It emits lean/BlocV/Gen/Shared.lean. Model/World.lean classifies every listed cell and
 `all_shared_cells_classified` is proved by `decide` over the generated list: a NEW shared mutable
 field (or a renamed / moved one) makes that theorem — and with it the C14 footprint obligation —
@@ -49,6 +54,12 @@ RE_MUTABLE = re.compile(r"\bmutable\s+([^;(){}]+?)\s*\b(\w+)\s*(?:\[[^\]]*\])?\s
 RE_STATIC = re.compile(
     r"^[ \t]*(?:[A-Z_]+_API\s+)?(?:constexpr\s+)?static\s+(?!const\b|constexpr\b|inline\b)"
     r"((?:struct\s*\{[^}]*\}\s*)|[^;(){}=]*?)\b(\w+)\s*(?:\[[^\]]*\])?\s*(?:=[^;]*)?;", re.M)
+# `thread_local` written BEFORE `static` (RE_STATIC anchors on `static` and would not see the declaration at all), or a
+# function-local / class-scope `thread_local` without `static` (block scope: implies static storage duration)
+RE_TLS = re.compile(
+    r"^[ \t]*(?:[A-Z_]+_API\s+)?(?:thread_local|__thread)\s+(?:static\s+)?(?!const\b|constexpr\b)"
+    r"((?:struct\s*\{[^}]*\}\s*)|[^;(){}=]*?)\b(\w+)\s*(?:\[[^\]]*\])?\s*(?:=[^;]*)?;", re.M)
+RE_IS_TLS = re.compile(r"\b(?:thread_local|__thread)\b")
 RE_GLOBAL = re.compile(
     r"^(?!const\b|static\b|typedef\b|using\b|return\b|extern\b|namespace\b|class\b|struct\b|enum\b|template\b|#)"
     r"([A-Za-z_][\w:<>,\*& ]*?[ \*&])((?:\w+::)*\w+)\s*(?:\[[^\]]*\])?\s*(?:=[^;\n{]*)?;[ \t]*$", re.M)
@@ -81,20 +92,33 @@ def scan():
 
             for m in RE_MUTABLE.finditer(src):
                 add(m, "mutable", m.group(2))
+            tls_at = set()
             for m in RE_STATIC.finditer(src):
                 if re.search(r"\bconstexpr\b", m.group(0)):
                     continue
+                if RE_IS_TLS.search(m.group(0)):
+                    # `static thread_local T x;`: one instance per thread
+                    if re.search(r"\bthread_local\s+const\b", m.group(0)):
+                        continue
+                    tls_at.add(m.start(2))
+                    add(m, "thread_local", m.group(2))
+                    continue
                 add(m, "static", m.group(2))
+            for m in RE_TLS.finditer(src):
+                if m.start(2) in tls_at or re.search(r"\bconstexpr\b", m.group(0)):
+                    continue
+                tls_at.add(m.start(2))
+                add(m, "thread_local", m.group(2))
             if fn.endswith((".cpp", ".c")):
                 for m in RE_GLOBAL.finditer(src):
-                    if m.group(2).split("::")[-1] == "operator":
+                    if m.group(2).split("::")[-1] == "operator" or m.start(2) in tls_at:
                         continue
-                    add(m, "global", m.group(2))
+                    add(m, "thread_local" if RE_IS_TLS.search(m.group(0)) else "global", m.group(2))
             for m in list(RE_REFCOUNT.finditer(src)) + list(RE_PROTO.finditer(src)):
                 ln = src.count("\n", 0, m.start(1)) + 1
                 cells.append((rel, ln, m.group(1), "shared-heap", " ".join(lines[ln - 1].split())))
     # a class static is declared in the header and defined in a .cpp: keep the declaration, drop `Class::name` definitions of it
-    declared = {c[2] for c in cells if c[3] == "static"}
+    declared = {c[2] for c in cells if c[3] in ("static", "thread_local")}
     out = []
     for c in cells:
         if c[3] == "global" and "::" in c[2] and c[2].split("::")[-1] in declared:
@@ -112,36 +136,58 @@ def lean_str(s):
     return '"' + s.replace("\\", "\\\\").replace('"', '\\"') + '"'
 
 
-def gen_shared():
-    cells = scan()
+def is_thread_local(c):
+    return c[3] == "thread_local"
+
+
+def lean_list(items):
+    """a Lean list literal body; `[` … `]` are written by the caller (an empty list stays well-formed)"""
+    return ",\n".join(items)
+
+
+def gen_shared(cells=None):
+    cells = scan() if cells is None else cells
+    shared = [c for c in cells if not is_thread_local(c)]
+    tls = [c for c in cells if is_thread_local(c)]
+
+    def names(cs):
+        seen = []
+        for c in cs:
+            k = (c[0], c[2])
+            if k not in seen:
+                seen.append(k)
+        return seen
+
+    def pairs(cs):
+        return lean_list("  (%s, %s)" % (lean_str(f), lean_str(n)) for f, n in names(cs))
+
+    def sites(cs):
+        return lean_list("  (%s, %d, %s, %s)" % (lean_str(c[0]), c[1], lean_str(c[2]), lean_str(c[3])) for c in cs)
+
     o = ["-- GENERATED by extract/shared.py. Do not edit.",
          "namespace BlocV.Gen", "",
          "/-- Every `mutable` member, non-const `static` and non-const namespace-scope variable of blocc/",
-         "(file, name), sorted. The C14 footprint obligation is stated over this list. -/",
-         "def sharedCells : List (String × String) := ["]
-    seen = []
-    for c in cells:
-        k = (c[0], c[2])
-        if k not in seen:
-            seen.append(k)
-    o.append(",\n".join("  (%s, %s)" % (lean_str(f), lean_str(n)) for f, n in seen))
-    o.append("]")
-    o.append("")
-    o.append("/-- The same cells with the line and the kind of declaration they were found at (information only:")
-    o.append("no proof mentions it, so that moving a line does not invalidate anything). -/")
-    o.append("def sharedCellSites : List (String × Nat × String × String) := [")
-    o.append(",\n".join("  (%s, %d, %s, %s)" % (lean_str(c[0]), c[1], lean_str(c[2]), lean_str(c[3])) for c in cells))
-    o.append("]")
-    o.append("")
-    o.append("end BlocV.Gen")
-    return "\n".join(o) + "\n"
+         "that is NOT declared `thread_local` (file, name), sorted: the cells contexts on different threads",
+         "share. The C14 footprint obligation is stated over this list. -/",
+         "def sharedCells : List (String × String) := [", pairs(shared), "]", "",
+         "/-- The same cells with the line and the kind of declaration they were found at (information only:",
+         "no proof mentions it, so that moving a line does not invalidate anything). -/",
+         "def sharedCellSites : List (String × Nat × String × String) := [", sites(shared), "]", "",
+         "/-- The non-const statics / namespace-scope variables declared `thread_local`: one instance per",
+         "thread, hence per-thread state and not shared between contexts that run on different threads.",
+         "Classified apart (`World.threadCellKind`); a cell that loses its `thread_local` leaves this list",
+         "and re-enters `sharedCells`. -/",
+         "def threadLocalCells : List (String × String) := [", pairs(tls), "]", "",
+         "def threadLocalCellSites : List (String × Nat × String × String) := [", sites(tls), "]", "",
+         "end BlocV.Gen"]
+    return "\n".join(x for x in o if x is not None) + "\n"
 
 
 def regenerate(write=True):
     """Returns (changed_files, errors, cells)."""
     try:
-        txt = gen_shared()
         cells = scan()
+        txt = gen_shared(cells)
     except ExtractError as e:
         return [], ["Shared.lean: %s" % e], []
     old = open(OUT).read() if os.path.exists(OUT) else None
